@@ -353,6 +353,7 @@ def run(tier):
     C.extra["pairs_decided"] = ndec
     C.floor("C15/pairs", ndec, FLOOR_PAIRS, "setter/getter pairs decided")
     check_control(F, C)
+    check_parsed_readings(F, C)
     C.extra["undecided_listed"] = C.analysed.get("undecided", [])[:80]
     C.assumptions += ["values are opaque atoms (valid single-line values); opaque value types print/parse an atom unchanged: " + ", ".join(sorted(OPAQUE)),
                       "lossless Paragraph get/set/remove/insert follow the ordered-list model (C04)", "expected Debian field names are derived from accessor names with the exception table in rules/c15.py"]
@@ -361,6 +362,43 @@ def run(tier):
 
 
 run.last_key = {}
+
+
+def check_parsed_readings(F, C):
+    """getters applied to parsed text: first description line / long description; environment lines 'KEY=value' whose
+    value may itself contain '='"""
+    cases = [
+        ("dep3::lossless::PatchHeader", "description", "Description", [("atom", "l0", "word"), ("lit", "\n"), ("atom", "l1", "word"), ("lit", "\n"), ("atom", "l2", "word")], some(symstr.atom("l0", "word"))),
+        ("dep3::lossless::PatchHeader", "long_description", "Description", [("atom", "l0", "word"), ("lit", "\n"), ("atom", "l1", "word"), ("lit", "\n"), ("atom", "l2", "word")],
+         some(symstr.mk([("atom", "l1", "word"), ("lit", "\n"), ("atom", "l2", "word")]))),
+        ("dep3::lossless::PatchHeader", "long_description", "Subject", [("atom", "l0", "word"), ("lit", "\n"), ("atom", "l1", "word"), ("lit", "\n"), ("atom", "l2", "word"), ("lit", "\n"), ("atom", "l3", "word")],
+         some(symstr.mk([("atom", "l1", "word"), ("lit", "\n"), ("atom", "l2", "word"), ("lit", "\n"), ("atom", "l3", "word")]))),
+        ("debian_control::lossless::buildinfo::Buildinfo", "environment", "Environment",
+         [("lit", "DEB_BUILD_OPTIONS=\"parallel=32\"\nLANG=C.UTF-8\nA=b=c=d")], None),
+    ]
+    for view, acc, field, ps, want in cases:
+        g = F.fn("%s::%s" % (view, acc))
+        if not C.ob("C15/anchor", "%s::%s" % (view, acc), g is not None, "getter not found"):
+            continue
+        para = ("abs", "para", ((symstr.lit("X-Before"), symstr.atom("before", "line")), (symstr.lit(field), symstr.mk(ps))))
+        I = hirai.Interp(F, Mod(F))
+        st = hirai.State(depth=0).setroot(("T", "view"), ("struct", view, (("0", para),)))
+        res = I.inline(g, [("ref", (("T", "view"),))], st)
+        got = [normalize(I.deep_deref(s, I.deref_val(s, v), 0)) for ctl, v, s in res if ctl == OK and not has_unk(I.deref_val(s, v))]
+        if acc == "environment":
+            wantset = {("DEB_BUILD_OPTIONS", "\"parallel=32\""), ("LANG", "C.UTF-8"), ("A", "b=c=d")}
+            pairs = set()
+            for gv in got:
+                inner = gv[2][0] if gv[0] == "enum" and gv[2] else None
+                if inner and inner[0] == "abs" and inner[1] in ("svec", "siter", "sset"):
+                    for t in inner[2]:
+                        if t[0] == "tuple":
+                            pairs.add((symstr.show(t[1][0]), symstr.show(t[1][1])))
+            C.ob("C15/parsed-reading", "%s::%s() on %r" % (view.split("::", 1)[1], acc, symstr.show(symstr.mk(ps))), len(res) >= 1 and pairs == wantset,
+                 "reads %s, expected %s (a value may itself contain '=')" % (sorted(pairs), sorted(wantset)), g["sp"])
+        else:
+            C.ob("C15/parsed-reading", "%s::%s() on %s = %r" % (view.split("::", 1)[1], acc, field, symstr.show(symstr.mk(ps))), got == [normalize(want)] and len(res) == len(got),
+                 "reads %s, expected %s" % ([show_value(x) for x in got] + ["(%d undecided outcomes)" % (len(res) - len(got))] * (len(res) != len(got)), show_value(want)), g["sp"])
 
 
 def check_control(F, C):
